@@ -22,6 +22,9 @@ def jobs(fam, tier):
     elif fam == 'm2':
         for row in S.matrix2_rows(tier):
             out += mk('*', S.matrix2_id(*row), S.matrix2(*row))
+    elif fam == 'm4':
+        for i in S.matrix4_rows(tier):
+            out += mk('*', f'm4/{i}', S.seq_program(i, ('d1', 'b') if tier == 'quick' else ('d1', 'd2', 't1', 'b'), ext=True))
     return out
 
 
